@@ -143,12 +143,12 @@ pub fn field_verdict(l: &Layout, f: &Field) -> Verdict {
     if !r1 {
         bad.push("R1-reversed-range".into());
     }
-    if r1 && !ranges_disjoint(f) {
-        return Verdict::Unspecified("list names a bit twice".into());
-    }
+    // a list naming a bit twice: the number of "selected bits" (R2) is ambiguous, so R2 is not judged; a
+    // violation of another rule still makes the declaration invalid, otherwise it is left open
+    let dup = r1 && !ranges_disjoint(f);
     let width = f.width();
     // R2
-    if r1 {
+    if r1 && !dup {
         let tb = l.ty_bits(&f.ty);
         if matches!(f.ty, FieldTy::Bool) {
             if width != 1 {
@@ -196,6 +196,9 @@ pub fn field_verdict(l: &Layout, f: &Field) -> Verdict {
         }
     }
     if bad.is_empty() {
+        if dup {
+            return Verdict::Unspecified("list names a bit twice".into());
+        }
         Verdict::Valid
     } else {
         Verdict::Invalid(bad)
